@@ -25,7 +25,7 @@ From Blue Require Table.ModelBloom.
 From Blue Require Log.ModelWire Log.Model Log.ProofsWire Log.ProofsWriter Log.ProofsReader Log.ProofsTop Log.Props_C12.
 From Blue Require Mani.Model Mani.ProofsOrder Mani.Props_C13.
 From Blue Require Import Damage.ModelOps Damage.ModelSst Damage.ModelFiles.
-From Blue Require Import Damage.ProofsOps Damage.ProofsSstBlock Damage.ProofsSstTotal Damage.ProofsSstDamage.
+From Blue Require Import Damage.ProofsOps Damage.ProofsSstBlock Damage.ProofsSstTotal Damage.ProofsSstDamage Damage.ProofsSstExample.
 From Blue Require Damage.ProofsLog Damage.ProofsMani.
 Import ListNotations.
 Open Scope N_scope.
@@ -33,45 +33,111 @@ Open Scope N_scope.
 (* ================================================================ SST *)
 
 (* ---- the central theorem: damage anywhere in front of the final block (data blocks, index block,
-   filter block, their frame envelopes), any number of bytes, the file length unchanged.  If the
-   CRC tells every damaged frame payload from the original one (crc_detects — the explicit
-   hypothesis), then: the damaged file fails to open or opens as the same table; a full forward
-   walk returns exactly the original entries, or fails after returning a prefix of them; every
-   point read returns what it returned on the original, or fails.  Never different data. *)
+   filter block, their frame envelopes), any number of bytes, the file length unchanged.  Two
+   explicit hypotheses on crc, for every frame position at which both files hold a frame:
+     crc_detects_payload   a damaged payload of the SAME length with the same checksum is the
+                           original payload (for CRC32C: true of single-bit flips and bursts of at
+                           most 32 bits, a fact about the polynomial NOT proved here; otherwise a
+                           2^-32 event);
+     crc_detects_envelope  a payload of ANOTHER length (the frame's tag or length varint was hit;
+                           load_block does not insist that the SstEntry fills [start, limit)) has
+                           another checksum — no property of CRC32C covers this; a 2^-32 event,
+                           assumed away here and swept exhaustively by the check.
+   Then: the damaged file fails to open or opens as the same table; a full forward walk returns
+   exactly the original entries, or fails after returning a prefix of them; every point read
+   returns what it returned on the original, or fails.  Never different data.
+   (C09_example_crc_hypotheses: both hypotheses hold for a concrete file and a damaged copy.) *)
 Theorem C09_sst_damage_detected_or_harmless : forall crc sip pp f f' t,
   sst_open crc f = SOk t ->
   len f' = len f ->
   agree_on (tail_start f) (len f) f f' ->
-  crc_detects crc f f' ->
+  crc_detects_payload crc f f' -> crc_detects_envelope crc f f' ->
   same_or_failed (sst_open crc f') (SOk (with_file t f')) /\
   (forall es, sst_walk crc t = (es, WEnd) ->
      sst_walk crc (with_file t f') = (es, WEnd) \/
      exists es' w, sst_walk crc (with_file t f') = (es', w) /\ w <> WEnd /\ exists tl, es = es' ++ tl) /\
+  (forall es, sst_walk_back crc t = (es, WEnd) ->
+     sst_walk_back crc (with_file t f') = (es, WEnd) \/
+     exists es' w, sst_walk_back crc (with_file t f') = (es', w) /\ w <> WEnd /\ exists tl, es = es' ++ tl) /\
+  (forall r, sst_meta_keys crc t = SOk r -> same_or_failed (sst_meta_keys crc (with_file t f')) (SOk r)) /\
   (forall key ts r, sst_load crc sip pp t key ts = SOk r ->
      same_or_failed (sst_load crc sip pp (with_file t f') key ts) (SOk r)).
 Proof.
-  intros crc sip pp f f' t Ho Hl Ha Hd.
+  intros crc sip pp f f' t Ho Hl Ha Hp He.
+  pose proof (crc_detects_of_split crc f f' Hp He) as Hd.
   assert (Hf : t_file t = f) by (destruct (sst_open_layout crc f t Ho) as (H & _); exact H).
   split; [exact (sst_open_damaged' crc f f' t Hd Hl Ha Ho)|]. split.
   - intros es H. apply sst_walk_damaged; [rewrite Hf; exact Hd|exact H].
-  - intros key ts r H. apply sst_load_damaged; [rewrite Hf; exact Hd|exact H].
+  - split; [|split].
+    + intros es H. apply sst_walk_back_damaged; [rewrite Hf; exact Hd|exact H].
+    + intros r H. apply sst_meta_keys_damaged; [rewrite Hf; exact Hd|exact H].
+    + intros key ts r H. apply sst_load_damaged; [rewrite Hf; exact Hd|exact H].
 Qed.
 
-(* ---- the unchecksummed tail (final block, trailing offset): any damage that leaves the bytes in
-   front of the end of the filter frame alone — flips and overwrites in the final block or the
-   trailing offset, truncation inside the final block, any appended suffix.  No assumption on crc.
-   If the damaged file still opens and names the same index and filter frames, the table holds the
-   same index and filter, and every walk and every point read returns exactly what the original
-   returns: only what metadata() reports (setsum, timestamps, file size) can differ. *)
-Theorem C09_sst_tail_damage_metadata_only : forall crc sip pp f f' t t',
+(* ---- the unchecksummed tail (final block, trailing offset).
+   KNOWN CLASS sst-final-block-metadata-unchecksummed (known_findings.txt).  The final block carries
+   three fields of its own — setsum, smallest_timestamp, biggest_timestamp — that no checksum covers
+   and no other part of the file repeats.
+   _refuted: a single bit flip there is accepted: the file opens, the walk and the index are what
+   they were, and the table presents a biggest_timestamp (4 instead of 0), a smallest_timestamp
+   (64, above the biggest) resp. a setsum that the file never held, as genuine — contrary to
+   "never returns different ... timestamps ... as if they were genuine".  Confirmed on the real
+   Sst::metadata(), and on a real store: lsmtk takes its next sequence number and the level order
+   from these fields (one flipped bit in the newest table made an acknowledged write vanish and an
+   overwritten value reappear after reopen; see the check's store probe).
+   _outside_known: any damage that leaves the bytes in front of the end of the filter frame alone
+   (flips and overwrites in the final block or the trailing offset, truncation inside it, any
+   appended suffix), no assumption on crc: if the damaged file still opens and names the same
+   index and filter frames, then the index, the filter, every walk, the first key and every point
+   read are exactly the original's — so the three fields are the ONLY thing that can differ, and
+   outside the class (the three fields equal) nothing observable of the table differs. *)
+Definition final_meta_known (t t' : sst) : Prop :=
+  fb_setsum (t_final t') <> fb_setsum (t_final t) \/
+  fb_smallest (t_final t') <> fb_smallest (t_final t) \/
+  fb_biggest (t_final t') <> fb_biggest (t_final t).
+
+(* what a table presents: its entries, its index, and the final block's own three fields *)
+Definition sst_presents (crc : list N -> N) (f : list N) :=
+  t <-- sst_open crc f ;;
+  SOk (sst_walk crc t, t_index t, fb_setsum (t_final t), fb_smallest (t_final t), fb_biggest (t_final t)).
+
+Theorem C09_sst_final_metadata_refuted :
+  exists crc f walk idx ss sm bg,
+    sst_presents crc f = SOk (walk, idx, ss, sm, bg) /\ snd walk = WEnd /\
+    (exists i k bg', tail_start f <= i /\ bg' <> bg /\
+       sst_presents crc (flip i k f) = SOk (walk, idx, ss, sm, bg')) /\
+    (exists i k sm', tail_start f <= i /\ bg < sm' /\
+       sst_presents crc (flip i k f) = SOk (walk, idx, ss, sm', bg)) /\
+    (exists i k ss', tail_start f <= i /\ ss' <> ss /\
+       sst_presents crc (flip i k f) = SOk (walk, idx, ss', sm, bg)).
+Proof.
+  exists ex_crc, ex_sst. do 5 eexists.
+  split; [vm_compute; reflexivity|]. split; [reflexivity|]. split; [|split].
+  - exists 213, 2. eexists. split; [vm_compute; discriminate|]. split; [|vm_compute; reflexivity]. discriminate.
+  - exists 210, 6. eexists. split; [vm_compute; discriminate|]. split; [|vm_compute; reflexivity]. reflexivity.
+  - exists 180, 3. eexists. split; [vm_compute; discriminate|]. split; [|vm_compute; reflexivity]. discriminate.
+Qed.
+
+Theorem C09_sst_tail_damage_outside_known : forall crc sip pp f f' t t',
   sst_open crc f = SOk t -> sst_open crc f' = SOk t' ->
   fb_index (t_final t') = fb_index (t_final t) -> fb_filter (t_final t') = fb_filter (t_final t) ->
   agree_on 0 (bm_limit (fb_filter (t_final t))) f f' ->
-  t_index t' = t_index t /\ t_filter t' = t_filter t /\
-  sst_walk crc t' = sst_walk crc t /\
-  sst_first_key crc t' = sst_first_key crc t /\
-  (forall key ts, sst_load crc sip pp t' key ts = sst_load crc sip pp t key ts).
-Proof. intros crc sip pp. exact (tail_damage_harmless crc sip pp). Qed.
+  (t_index t' = t_index t /\ t_filter t' = t_filter t /\
+   sst_walk crc t' = sst_walk crc t /\
+   sst_walk_back crc t' = sst_walk_back crc t /\
+   sst_meta_keys crc t' = sst_meta_keys crc t /\
+   (forall key ts, sst_load crc sip pp t' key ts = sst_load crc sip pp t key ts)) /\
+  (~ final_meta_known t t' ->
+   fb_setsum (t_final t') = fb_setsum (t_final t) /\ fb_smallest (t_final t') = fb_smallest (t_final t) /\
+   fb_biggest (t_final t') = fb_biggest (t_final t)).
+Proof.
+  intros crc sip pp f f' t t' H1 H2 H3 H4 H5. split; [exact (tail_damage_harmless crc sip pp f f' t t' H1 H2 H3 H4 H5)|].
+  intros Hk. unfold final_meta_known in Hk.
+  destruct (list_eq_dec N.eq_dec (fb_setsum (t_final t')) (fb_setsum (t_final t))) as [E1|E1]; [|exfalso; apply Hk; left; exact E1].
+  destruct (N.eq_dec (fb_smallest (t_final t')) (fb_smallest (t_final t))) as [E2|E2]; [|exfalso; apply Hk; right; left; exact E2].
+  destruct (N.eq_dec (fb_biggest (t_final t')) (fb_biggest (t_final t))) as [E3|E3]; [|exfalso; apply Hk; right; right; exact E3].
+  auto.
+Qed.
 
 (* ---- the other case of tail damage, stated as what it takes: when the damaged file opens and
    names an index or filter frame the original did not name, a checksum comparison has passed on
@@ -96,7 +162,7 @@ Theorem C09_sst_open_names_checked_frames : forall crc f t, sst_open crc f = SOk
 Proof. exact sst_open_layout. Qed.
 
 (* ---- readers total and bounded, for ALL byte strings and every crc / hash: opening, the full
-   forward walk, the first key and every point read return a value or an error — never a panic
+   forward walk, metadata()'s first and last key (seek_to_last + prev) and every point read return a value or an error — never a panic
    (index or slice out of range, failed assert, usize underflow in Block::new), never an
    allocation larger than the file itself, never out of the model's fuel. *)
 Theorem C09_sst_readers_total_bounded : forall crc sip pp f,
@@ -104,19 +170,24 @@ Theorem C09_sst_readers_total_bounded : forall crc sip pp f,
   (sst_open crc f <> SPanic /\ sst_open crc f <> SHuge /\ sst_open crc f <> SFuel) /\
   forall t, sst_open crc f = SOk t ->
     (snd (sst_walk crc t) <> WPanic /\ snd (sst_walk crc t) <> WHuge /\ snd (sst_walk crc t) <> WFuel) /\
-    (sst_first_key crc t <> SPanic /\ sst_first_key crc t <> SHuge /\ sst_first_key crc t <> SFuel) /\
-    forall key ts, sst_load crc sip pp t key ts <> SPanic /\ sst_load crc sip pp t key ts <> SHuge /\
-                   sst_load crc sip pp t key ts <> SFuel.
+    (sst_meta_keys crc t <> SPanic /\ sst_meta_keys crc t <> SHuge /\ sst_meta_keys crc t <> SFuel) /\
+    (forall key ts, sst_load crc sip pp t key ts <> SPanic /\ sst_load crc sip pp t key ts <> SHuge /\
+                    sst_load crc sip pp t key ts <> SFuel) /\
+    (* the backward walk: every prev() returns a value or an error (C09_block_prev_total), so the
+       walk never panics and never over-allocates; that it ENDS on a forged block (prev() making
+       progress) is not proved — the model's fuel outcome is not excluded here; decided by samples *)
+    (snd (sst_walk_back crc t) <> WPanic /\ snd (sst_walk_back crc t) <> WHuge).
 Proof.
   intros crc sip pp f Hb Hpp.
   assert (F : forall A (r : sres A), fine r -> r <> SPanic /\ r <> SHuge /\ r <> SFuel).
   { intros A [a|e| | |] H; cbn in H; try contradiction; repeat split; discriminate. }
   split; [apply F; apply sst_open_fine; exact Hb|].
   intros t Ho. destruct (sst_open_spec crc f Hb) as [(t0 & E & Hw & _)|[e E]]; rewrite E in Ho; [|discriminate].
-  inversion Ho; subst t0. split; [|split].
+  inversion Ho; subst t0. split; [|split; [|split]].
   - pose proof (sst_walk_fine crc t Hw) as H. destruct (snd (sst_walk crc t)); cbn in H; try contradiction; repeat split; discriminate.
-  - apply F. apply sst_first_key_fine. exact Hw.
+  - apply F. apply sst_meta_keys_fine. exact Hw.
   - intros key ts. apply F. apply (sst_load_fine crc sip pp Hpp); assumption.
+  - pose proof (sst_walk_back_no_panic crc t Hw) as H. destruct (snd (sst_walk_back crc t)); cbn in H; try contradiction; split; discriminate.
 Qed.
 
 (* ---- the block reader by itself (Block::new is public): any bytes.  With the repaired footer
@@ -128,16 +199,18 @@ Proof. exact block_new_spec. Qed.
 
 Theorem C09_block_cursor_total : forall bs b p key,
   bytes_ok bs -> block_new bs = SOk b -> pos_wf b p ->
-  fine (bc_next b p) /\ fine (bc_seek b p key) /\ fine (snd (iter_block b is_last p)) /\
-  (forall q, bc_next b p = SOk q -> pos_wf b q) /\ (forall q, bc_seek b p key = SOk q -> pos_wf b q).
+  fine (bc_next b p) /\ fine (bc_seek b p key) /\ fine (snd (iter_block b is_last p)) /\ fine (bc_prev b p) /\
+  (forall q, bc_next b p = SOk q -> pos_wf b q) /\ (forall q, bc_seek b p key = SOk q -> pos_wf b q) /\
+  (forall q, bc_prev b p = SOk q -> pos_wf b q).
 Proof.
   intros bs b p key Hb E Hp. destruct (block_new_spec bs Hb) as [(b0 & E0 & Hw & _)|[e E0]]; rewrite E0 in E; [|discriminate].
   inversion E; subst b0.
   split; [apply bc_next_fine; assumption|]. split; [apply bc_seek_fine; assumption|].
-  split; [apply iter_block_fine; [exact Hw|reflexivity|exact Hp]|]. split.
+  split; [apply iter_block_fine; [exact Hw|reflexivity|exact Hp]|]. split; [apply bc_prev_fine; assumption|]. split; [|split].
   - intros q H. destruct (bc_next_spec b p Hw Hp) as [(p' & E1 & Hr)|[e E1]]; rewrite E1 in H; [|discriminate].
     inversion H; subst. eapply next_rel_wf; eassumption.
   - intros q H. eapply bc_seek_wf; eassumption.
+  - intros q H. exact (proj2 (bc_prev_spec b p Hw Hp) q H).
 Qed.
 
 (* ================================================================ write-ahead log *)
@@ -398,19 +471,20 @@ Qed.
    walks; a bit flipped in a data block is reported as crc32c-failure on the walk and on the read
    of that block while the other block still reads; a bit flipped in the setsum of the final block
    changes nothing but the metadata; the final-block offset overwritten gives an error at open *)
-Definition ex_crc (l : list N) : N := fold_left (fun a b => a * 31 + b + 7) l 5.
-Definition ex_sst : list N :=
-  [82; 32; 66; 10; 8; 0; 18; 1; 97; 24; 5; 34; 1; 120; 74; 7; 40; 1; 50; 1; 98; 56; 4; 82; 4; 0; 0; 0; 0; 93; 1; 0; 0; 0;
-   82; 24; 66; 11; 8; 0; 18; 1; 99; 24; 3; 34; 2; 122; 122; 82; 4; 0; 0; 0; 0; 93; 1; 0; 0; 0;
-   82; 52; 66; 19; 8; 0; 18; 2; 97; 98; 24; 0; 34; 9; 104; 0; 112; 34; 125; 224; 44; 36; 149; 66; 18; 8; 0; 18; 1; 99; 24; 0;
-   34; 9; 104; 34; 112; 60; 125; 17; 73; 160; 248; 82; 4; 0; 0; 0; 0; 93; 1; 0; 0; 0;
-   106; 32; 255; 255; 255; 255; 255; 255; 255; 255; 255; 255; 255; 255; 255; 255; 255; 255; 255; 255; 255; 255; 255; 255;
-   255; 255; 255; 255; 255; 255; 255; 255; 255; 255;
-   130; 1; 9; 104; 60; 112; 114; 125; 28; 162; 248; 84; 138; 1; 10; 104; 114; 112; 148; 1; 125; 5; 56; 10; 141; 154; 1; 32;
-   0; 0; 0; 0; 0; 0; 0; 0; 0; 0; 0; 0; 0; 0; 0; 0; 0; 0; 0; 0; 0; 0; 0; 0; 0; 0; 0; 0; 0; 0; 0; 0; 160; 1; 0; 168; 1; 0;
-   145; 1; 148; 0; 0; 0; 0; 0; 0; 0].
-Definition ex_pp (keys : list (list N)) (key : list N) : N :=
-  N.of_nat (length (filter (fun k => match lex_cmp k key with Lt => true | _ => false end) keys)).
+(* the two hypotheses on crc of the central theorem are satisfiable: they hold for ex_sst and its
+   copy with bit 2 of byte 45 (inside the second data block) flipped, with the toy checksum
+   ex_crc — proved by a sweep over every frame position of the 224-byte file *)
+Example C09_example_crc_hypotheses :
+  flip 45 2 ex_sst <> ex_sst /\ len (flip 45 2 ex_sst) = len ex_sst /\
+  agree_on (tail_start ex_sst) (len ex_sst) ex_sst (flip 45 2 ex_sst) /\
+  crc_detects_payload ex_crc ex_sst (flip 45 2 ex_sst) /\
+  crc_detects_envelope ex_crc ex_sst (flip 45 2 ex_sst).
+Proof.
+  split; [vm_compute; discriminate|]. split; [reflexivity|].
+  split; [apply agree_on_sym; apply flip_agree; left; vm_compute; reflexivity|].
+  exact (crc_detects_split ex_crc ex_sst _ ex_crc_detects).
+Qed.
+
 Definition ex_walk (f : list N) : sres (list entry * wend) :=
   t <-- sst_open ex_crc f ;; SOk (sst_walk ex_crc t).
 
